@@ -54,6 +54,10 @@ func NewWeekFromString(yyyyWww string) (Week, error) {
 		// Prevent implicit roll over.
 		return Week{}, errors.New("INVALID_WEEK_PERIOD")
 	}
+	if lastMonday, _ := klog.NewDate(9999, 12, 20); !lastMonday.IsAfterOrEqual(reference) {
+		// The last week of the year 9999 ends in the year 10000, which cannot be represented.
+		return Week{}, errors.New("INVALID_WEEK_PERIOD")
+	}
 	return Week{reference}, nil
 }
 
